@@ -99,6 +99,11 @@ func (p *TriggerPool) sendJobsForExecution(numJobs int) {
 	p.jobsAvailableCond.Broadcast()
 
 	p.jobsAvailableCond.L.Unlock()
+	// Work that can no longer start only because max-iterations has been reached is discarded
+	// silently; it was not dropped because the workers were too busy.
+	if p.manager.MaxIterationsReached() {
+		jobsDiscarded = 0
+	}
 	verifhook.Yield("tp.send.unlocked", p, jobsDiscarded)
 
 	for range jobsDiscarded {
